@@ -2,6 +2,7 @@ package main
 
 import (
 	"go/types"
+	"math/big"
 
 	"golang.org/x/tools/go/ssa"
 )
@@ -30,6 +31,55 @@ func loggerValue(e *Engine) value {
 }
 
 func registerPalomaHelpers(e *Engine) {
+	// util/palomath.BigIntDiv: a/b through big.Float, printed with 8 decimals and
+	// parsed into a LegacyDec (raw value * 10^18)
+	mkDec := func(fr *frame, raw bigVal) value {
+		dt := e.namedType("cosmossdk.io/math", "LegacyDec")
+		s := zero(dt).(structure)
+		s[0] = newBigCell(raw)
+		return s
+	}
+	e.reg(modPath+"/util/palomath.BigIntDiv", func(fr *frame, args []value) value {
+		a, b := bigOf(fr, args[0]), bigOf(fr, args[1])
+		if a.isConc() && b.isConc() {
+			if a.conc().Sign() == 0 && b.conc().Sign() == 0 {
+				panic(targetPanic{errValue(fr, "division of zero by zero or infinity by infinity")})
+			}
+			if b.conc().Sign() == 0 {
+				abort("unmodelled", "BigIntDiv by zero (infinite big.Float)")
+			}
+			q := new(big.Float).Quo(new(big.Float).SetInt(a.conc()), new(big.Float).SetInt(b.conc()))
+			txt := q.Text('f', 8)
+			r, ok := new(big.Rat).SetString(txt)
+			if !ok {
+				abort("unmodelled", "BigIntDiv text %s", txt)
+			}
+			raw := new(big.Int).Mul(r.Num(), new(big.Int).Exp(big.NewInt(10), big.NewInt(18), nil))
+			raw.Quo(raw, r.Denom())
+			return mkDec(fr, bigConc(raw))
+		}
+		if fr.p.branch(fr, eqZero(b), nil) {
+			abort("unmodelled", "BigIntDiv by symbolic zero")
+		}
+		// nearest multiple of 10^-8 (ties rounded up; float rounding of the quotient ignored)
+		num := Add(Mul(Mul(a.term(), IntConst64(2)), IntConst64(100_000_000)), b.term())
+		q8 := EDiv(num, Mul(b.term(), IntConst64(2)))
+		return mkDec(fr, mkBig(Mul(q8, IntConst64(10_000_000_000))))
+	})
+	e.reg(modPath+"/util/palomath.LegacyDecFromFloat64", func(fr *frame, args []value) value {
+		f, ok := args[0].(float64)
+		if !ok {
+			abort("unmodelled", "LegacyDecFromFloat64 of symbolic float")
+		}
+		txt := big.NewFloat(f).Text('f', 8)
+		r, ok := new(big.Rat).SetString(txt)
+		if !ok {
+			abort("unmodelled", "LegacyDecFromFloat64 text %s", txt)
+		}
+		raw := new(big.Int).Mul(r.Num(), new(big.Int).Exp(big.NewInt(10), big.NewInt(18), nil))
+		raw.Quo(raw, r.Denom())
+		return mkDec(fr, bigConc(raw))
+	})
 	// util/libvalid.IsNil peeks at the interface data word through unsafe: true for
 	// a nil interface and for nil values of pointer-shaped types (pointer, map,
 	// chan, func); every other kind is boxed, so its data word is never zero.
